@@ -275,6 +275,40 @@ M("C04", "append-bypasses-add", "archive.py", "    def append(self, individual):
 M("C04", "double-append", "archive.py", "        if not is_dominated and not is_contained:\n            self._contents.append(individual)\n            return True", "        if not is_dominated and not is_contained:\n            self._contents.append(individual)\n            self._contents.append(individual)\n            return True")
 M("C04", "empty-fast-path-no-flag", "archive.py", "        if len(self._contents) == 0:\n            self._contents.append(individual)\n            return True", "        if len(self._contents) == 0:\n            self._contents.append(individual)\n            return False")
 # twins
-M("C04", "twin-remove-member", "archive.py", "                    del self._contents[index - number_of_deleted_solutions]\n                    number_of_deleted_solutions += 1\n", "                    self._contents.remove(current_solution)\n", "H")
+M("C04", "remove-by-equality", "archive.py", "                    del self._contents[index - number_of_deleted_solutions]\n                    number_of_deleted_solutions += 1\n", "                    self._contents.remove(current_solution)\n")
+M("C04", "twin-identity-rebuild", "archive.py", "                    del self._contents[index - number_of_deleted_solutions]\n                    number_of_deleted_solutions += 1\n", "                    self._contents = [m for m in self._contents if m is not current_solution]\n", "H")
 M("C04", "twin-sorted-reverse-kw", "archive.py", "        result = sorted(self._contents, key=lambda x: x.features[getter])\n\n        if larger_preferred:\n            result.reverse()\n", "        result = sorted(self._contents, key=lambda x: x.features[getter], reverse=larger_preferred)\n", "H")
 M("C04", "twin-slice-copy", "archive.py", "enumerate(list(self._contents))", "enumerate(self._contents[:])", "H")
+
+# ---------------------------------------------------------------- C03
+M("C03", "cmp-front-reversed", "operators.py", "        if p.features['front_number'] < q.features['front_number']:\n            return -1\n        elif p.features['front_number'] > q.features['front_number']:\n            return 1", "        if p.features['front_number'] > q.features['front_number']:\n            return -1\n        elif p.features['front_number'] < q.features['front_number']:\n            return 1")
+M("C03", "cmp-crowding-ascending", "operators.py", "        if -p.features['crowding_distance'] < -q.features['crowding_distance']:\n            return -1\n        elif -p.features['crowding_distance'] > -q.features['crowding_distance']:\n            return 1", "        if p.features['crowding_distance'] < q.features['crowding_distance']:\n            return -1\n        elif p.features['crowding_distance'] > q.features['crowding_distance']:\n            return 1")
+M("C03", "cmp-crowding-ignored", "operators.py", "        if -p.features['crowding_distance'] < -q.features['crowding_distance']:\n            return -1\n        elif -p.features['crowding_distance'] > -q.features['crowding_distance']:\n            return 1\n        else:\n            return 0", "        return 0")
+M("C03", "cmp-half-negated", "operators.py", "        if -p.features['crowding_distance'] < -q.features['crowding_distance']:", "        if -p.features['crowding_distance'] < q.features['crowding_distance']:")
+M("C03", "truncate-reverse", "operators.py", "result = sorted(population, key=functools.cmp_to_key(nondominated_cmp))", "result = sorted(population, key=functools.cmp_to_key(nondominated_cmp), reverse=True)")
+M("C03", "truncate-tail", "operators.py", "    return result[:size]", "    return result[size:]")
+M("C03", "truncate-no-set", "operators.py", "    population = list(set(population))\n", "    population = list(population)\n")
+M("C03", "truncate-size-minus", "operators.py", "    return result[:size]", "    return result[:size - 1]")
+M("C03", "truncate-unsorted", "operators.py", "    return result[:size]", "    return population[:size]")
+M("C03", "crowd-overwrite", "operators.py", "front[i].features['crowding_distance'] += distance / max_distance", "front[i].features['crowding_distance'] = distance / max_distance")
+M("C03", "crowd-interior-short", "operators.py", "        for i in range(1, n - 1):\n            distance", "        for i in range(2, n - 1):\n            distance")
+M("C03", "crowd-interior-long", "operators.py", "        for i in range(1, n - 1):\n            distance", "        for i in range(1, n - 2):\n            distance")
+M("C03", "crowd-neighbour-offset", "operators.py", "distance = front[i + 1].costs_signed[dim] - front[i - 1].costs_signed[dim]", "distance = front[i + 1].costs_signed[dim] - front[i].costs_signed[dim]")
+M("C03", "crowd-marker-counted", "operators.py", "for dim in range(len(front[0].costs_signed[:-1])):", "for dim in range(len(front[0].costs_signed)):")
+M("C03", "crowd-skip-objective", "operators.py", "for dim in range(len(front[0].costs_signed[:-1])):", "for dim in range(1, len(front[0].costs_signed[:-1])):")
+M("C03", "crowd-sort-fixed-dim", "operators.py", "front.sort(key=lambda x: x.costs_signed[dim])", "front.sort(key=lambda x: x.costs_signed[0])")
+M("C03", "crowd-no-sort", "operators.py", "        front.sort(key=lambda x: x.costs_signed[dim])\n", "")
+M("C03", "crowd-one-boundary", "operators.py", "        front[0].features['crowding_distance'] = math.inf\n        front[-1].features['crowding_distance'] = math.inf\n        max_distance", "        front[0].features['crowding_distance'] = math.inf\n        max_distance")
+M("C03", "crowd-zero-inside", "operators.py", "    for i in range(len(front)):\n        front[i].features['crowding_distance'] = 0.0\n\n    for dim in range(len(front[0].costs_signed[:-1])):\n", "    for dim in range(len(front[0].costs_signed[:-1])):\n        for i in range(len(front)):\n            front[i].features['crowding_distance'] = 0.0\n")
+M("C03", "crowd-no-zero", "operators.py", "    for i in range(len(front)):\n        front[i].features['crowding_distance'] = 0.0\n\n", "")
+M("C03", "crowd-wrong-range", "operators.py", "max_distance = front[-1].costs_signed[dim] - front[0].costs_signed[dim]", "max_distance = front[-1].costs_signed[0] - front[0].costs_signed[0]")
+M("C03", "crowd-two-not-inf", "operators.py", "    elif n == 2:\n        front[0].features['crowding_distance'] = math.inf\n        front[1].features['crowding_distance'] = math.inf\n        return\n", "    elif n == 2:\n        front[0].features['crowding_distance'] = math.inf\n        front[1].features['crowding_distance'] = 0.0\n        return\n")
+M("C03", "tour-worse-front", "operators.py", "            if candidates[0].features['front_number'] < candidates[1].features['front_number']:\n                return candidates[0]", "            if candidates[0].features['front_number'] > candidates[1].features['front_number']:\n                return candidates[0]")
+M("C03", "tour-dominated", "operators.py", "            if flag == 1:\n                selected = candidates[0]\n            elif flag == 2:\n                selected = candidates[1]", "            if flag == 1:\n                selected = candidates[1]\n            elif flag == 2:\n                selected = candidates[0]")
+M("C03", "tour-args-swapped", "operators.py", "flag = self.dominance.compare(candidates[0].costs_signed, candidates[1].costs_signed)\n\n            if flag == 1:\n                selected = candidates[0]", "flag = self.dominance.compare(candidates[1].costs_signed, candidates[0].costs_signed)\n\n            if flag == 1:\n                selected = candidates[0]")
+M("C03", "tour-with-replacement", "operators.py", "candidates = random.sample(individuals, 2)", "candidates = random.choices(individuals, k=2)")
+M("C03", "tour-no-front-check", "operators.py", "            if candidates[0].features['front_number'] < candidates[1].features['front_number']:\n                return candidates[0]\n            elif candidates[1].features['front_number'] < candidates[0].features['front_number']:\n                return candidates[1]\n", "")
+# twins
+M("C03", "twin-key-tuple", "operators.py", "result = sorted(population, key=functools.cmp_to_key(nondominated_cmp))", "result = sorted(population, key=lambda x: (x.features['front_number'], -x.features['crowding_distance']))", "H")
+M("C03", "twin-cmp-plain", "operators.py", "        if -p.features['crowding_distance'] < -q.features['crowding_distance']:\n            return -1\n        elif -p.features['crowding_distance'] > -q.features['crowding_distance']:\n            return 1", "        if p.features['crowding_distance'] > q.features['crowding_distance']:\n            return -1\n        elif p.features['crowding_distance'] < q.features['crowding_distance']:\n            return 1", "H")
+M("C03", "twin-crowd-len", "operators.py", "for dim in range(len(front[0].costs_signed[:-1])):", "for dim in range(len(front[0].costs_signed) - 1):", "H")
